@@ -85,56 +85,47 @@ Proof. unfold slice_to. destruct ((0 <=? hi) && (hi <=? zlen s))%Z; discriminate
 Lemma zlen_skipn {A} (s : list A) k : (k <= length s)%nat -> zlen (skipn k s) = (zlen s - Z.of_nat k)%Z.
 Proof. intro H. unfold zlen. rewrite skipn_length. lia. Qed.
 
-(* memory.go read(): the exact precondition *)
+(* memory.go read() as repaired: the exact precondition.  The only panic left is a negative page
+   size (together with a non-negative offset), which the command layer cannot produce. *)
 Theorem no_panic_iff {A} (matches : list A) (from to : Z) :
-  page_slice matches from to <> Panic <-> (0 <= from /\ 0 <= to)%Z.
+  page_slice matches from to <> Panic <-> (from < 0 \/ 0 <= to)%Z.
 Proof.
-  unfold page_slice.
-  destruct (from <=? zlen matches)%Z eqn:Efl.
-  - destruct (Z.ltb from 0) eqn:Eneg.
-    + (* matches[from:] with a negative from *)
-      unfold slice_from. replace ((0 <=? from) && (from <=? zlen matches))%Z with false by lia.
+  unfold page_slice. pose proof (zlen_nonneg matches) as Hn.
+  destruct (from <? 0)%Z eqn:Ef; [split; [intros _; lia | intros _ H; discriminate H]|].
+  set (from' := Z.min from (zlen matches)).
+  rewrite slice_from_ok by (unfold from'; lia). cbn [bind].
+  set (m := skipn (Z.to_nat from') matches). pose proof (zlen_nonneg m) as Hm.
+  destruct (negb (to =? 0) && (to <? zlen m))%Z eqn:Et.
+  - destruct (Z.ltb to 0) eqn:Etn.
+    + unfold slice_to. replace ((0 <=? to) && (to <=? zlen m))%Z with false by lia.
       simpl. split; [intro H; exfalso; apply H; reflexivity | lia].
-    + rewrite slice_from_ok by lia. cbn [bind].
-      set (m := skipn (Z.to_nat from) matches).
-      destruct (negb (to =? 0) && (to <? zlen m))%Z eqn:Et.
-      * destruct (Z.ltb to 0) eqn:Etn.
-        -- unfold slice_to. replace ((0 <=? to) && (to <=? zlen m))%Z with false by lia.
-           simpl. split; [intro H; exfalso; apply H; reflexivity | lia].
-        -- rewrite slice_to_ok by lia. simpl. split; [lia | intros _ H; discriminate H].
-      * split; [| intros _ H; discriminate H].
-        intros _. pose proof (zlen_nonneg m) as Hnn. lia.
-  - cbn [bind].
-    destruct (negb (to =? 0) && (to <? zlen matches))%Z eqn:Et.
-    + destruct (Z.ltb to 0) eqn:Etn.
-      * unfold slice_to. replace ((0 <=? to) && (to <=? zlen matches))%Z with false by lia.
-        simpl. split; [intro H; exfalso; apply H; reflexivity | lia].
-      * rewrite slice_to_ok by lia. simpl.
-        pose proof (zlen_nonneg matches) as Hnn. split; [lia | intros _ H; discriminate H].
-    + split; [| intros _ H; discriminate H].
-      intros _. pose proof (zlen_nonneg matches) as Hnn. lia.
+    + rewrite slice_to_ok by lia. simpl. split; [lia | intros _ H; discriminate H].
+  - split; [intros _; lia | intros _ H; discriminate H].
 Qed.
 
 Theorem page_slice_no_fuel {A} (matches : list A) from to : page_slice matches from to <> OutOfFuel.
 Proof.
-  unfold page_slice.
-  destruct (from <=? zlen matches)%Z.
-  - unfold slice_from. destruct ((0 <=? from) && (from <=? zlen matches))%Z; cbn [bind]; [|discriminate].
-    destruct (negb (to =? 0) && (to <? zlen (skipn (Z.to_nat from) matches)))%Z; [|discriminate].
-    unfold slice_to. destruct ((0 <=? to) && _)%Z; discriminate.
-  - cbn [bind]. destruct (negb (to =? 0) && (to <? zlen matches))%Z; [|discriminate].
-    unfold slice_to. destruct ((0 <=? to) && _)%Z; discriminate.
+  unfold page_slice. destruct (from <? 0)%Z; [discriminate|].
+  unfold slice_from. destruct ((0 <=? _) && _)%Z; cbn [bind]; [|discriminate].
+  destruct (negb (to =? 0) && _)%Z; [|discriminate].
+  unfold slice_to. destruct ((0 <=? to) && _)%Z; discriminate.
 Qed.
 
-(* what the page is when it does not panic and the offset is inside the listing *)
+(* a negative offset is rejected before any slicing *)
+Theorem page_slice_negative_offset {A} (matches : list A) from to :
+  (from < 0)%Z -> page_slice matches from to = Ok None.
+Proof. intro H. unfold page_slice. replace (from <? 0)%Z with true by lia. reflexivity. Qed.
+
+(* what the page is when the offset is inside the listing *)
 Theorem page_slice_in_range {A} (matches : list A) from to :
   (0 <= from <= zlen matches)%Z -> (0 < to)%Z ->
   page_slice matches from to =
-  Ok (firstn (Z.to_nat to) (skipn (Z.to_nat from) matches),
-      if (to <? zlen matches - from)%Z then Some (Paging.wrap64 (from + to)) else None).
+  Ok (Some (firstn (Z.to_nat to) (skipn (Z.to_nat from) matches),
+            if (to <? zlen matches - from)%Z then Some (Paging.wrap64 (from + to)) else None)).
 Proof.
   intros Hf Ht. unfold page_slice.
-  replace (from <=? zlen matches)%Z with true by lia.
+  replace (from <? 0)%Z with false by lia.
+  replace (Z.min from (zlen matches)) with from by lia.
   rewrite slice_from_ok by lia. cbn [bind].
   assert (Hl : zlen (skipn (Z.to_nat from) matches) = (zlen matches - from)%Z)
     by (rewrite zlen_skipn; unfold zlen in *; lia).
@@ -143,7 +134,21 @@ Proof.
   - replace (negb (to =? 0))%Z with true by lia. cbn [andb].
     rewrite slice_to_ok by lia. reflexivity.
   - replace (negb (to =? 0) && false)%Z with false by (destruct (negb (to =? 0)%Z); reflexivity).
-    f_equal. f_equal. symmetry. apply firstn_all2. unfold zlen in *. lia.
+    f_equal. f_equal. f_equal. symmetry. apply firstn_all2. unfold zlen in *. lia.
+Qed.
+
+(* an offset beyond the end is the empty last page (it used to restart from the first page) *)
+Theorem page_slice_beyond_end {A} (matches : list A) from to :
+  (zlen matches < from)%Z -> (0 <= to)%Z -> page_slice matches from to = Ok (Some ([], None)).
+Proof.
+  intros Hf Ht. unfold page_slice. pose proof (zlen_nonneg matches) as Hn.
+  replace (from <? 0)%Z with false by lia.
+  replace (Z.min from (zlen matches)) with (zlen matches) by lia.
+  rewrite slice_from_ok by lia. cbn [bind].
+  assert (He : skipn (Z.to_nat (zlen matches)) matches = []) by (unfold zlen; rewrite Nat2Z.id; apply skipn_all).
+  rewrite He.
+  replace (negb (to =? 0) && (to <? zlen (@nil A)))%Z with false by (unfold zlen; cbn [length]; lia).
+  reflexivity.
 Qed.
 
 (* the clamped slices of ReadAuthorizationModels / ListStores never panic, whatever the token
@@ -170,76 +175,33 @@ Qed.
 Lemma page_size_opt_pos ps : (0 < Z.of_N (Paging.page_size_opt ps))%Z.
 Proof. unfold Paging.page_size_opt, Paging.default_page_size. destruct (0 <? ps)%Z eqn:E; lia. Qed.
 
-(* ... so at the command level only the token can make ReadPage panic: exactly the tokens whose
-   offset part parses to a negative integer *)
-Theorem read_request_panic_iff {A} (matches : list A) (req_ps : Z) (tok : bytes) :
-  read_request_mem matches req_ps tok = Panic <-> negative_offset_token tok = true.
+(* ... so at the command level NO request makes ReadPage panic: the full-strength statement that
+   finding F5 refuted holds for the repaired code, for every listing, page size and token *)
+Theorem no_panic_read_request {A} (matches : list A) (req_ps : Z) (tok : bytes) :
+  read_request_mem matches req_ps tok <> Panic.
 Proof.
-  unfold read_request_mem, negative_offset_token, read_page_mem.
+  unfold read_request_mem, read_page_mem.
   pose proof (page_size_opt_pos req_ps) as Hps.
   set (ps := Z.of_N (Paging.page_size_opt req_ps)) in *.
   assert (Hcore : forall u, match Paging.parse_from u with
-                            | Some z => bind (page_slice matches z ps) (fun r => Ok (Some r))
+                            | Some z => page_slice matches z ps
                             | None => Ok None
-                            end = Panic <->
-                            match Paging.parse_from u with Some z => (z <? 0)%Z | None => false end = true).
-  { intro u. destruct (Paging.parse_from u) as [z|]; [|split; discriminate].
-    pose proof (no_panic_iff matches z ps) as Hiff.
-    pose proof (page_slice_no_fuel matches z ps) as Hnf.
-    destruct (page_slice matches z ps) as [r| |]; cbn [bind].
-    - split; [discriminate|]. intro Hz. exfalso.
-      assert (0 <= z /\ 0 <= ps)%Z by (apply Hiff; discriminate). lia.
-    - split; [intros _|reflexivity].
-      destruct (Z.ltb z 0) eqn:Ez; [reflexivity|]. exfalso.
-      assert (Hc : (@Panic (list A * option Z)) <> Panic) by (apply Hiff; lia). apply Hc. reflexivity.
-    - exfalso. apply Hnf. reflexivity. }
-  destruct tok as [|c tok'].
-  - (* empty token: offset 0 *)
-    specialize (Hcore []). simpl in Hcore. cbn [Paging.parse_from] in *.
-    split; [|discriminate]. intro H. apply Hcore in H. discriminate H.
-  - destruct (Paging.deserialize (c :: tok')) as [[u ty]|]; [apply Hcore | split; discriminate].
+                            end <> Panic).
+  { intro u. destruct (Paging.parse_from u) as [z|]; [|discriminate].
+    apply no_panic_iff. lia. }
+  destruct tok as [|c tok']; [apply (Hcore [])|].
+  destruct (Paging.deserialize (c :: tok')) as [[u ty]|]; [apply Hcore | discriminate].
 Qed.
 
-(* full-strength statement: "no continuation token makes Read panic" is FALSE for the code as it
-   is (finding F5): the token "-1|" reaches matches[-1:] on any store, even an empty one *)
-Theorem no_panic_read_request_refuted :
-  exists (matches : list N) (req_ps : Z) (tok : bytes),
-    read_request_mem matches req_ps tok = Panic.
-Proof. exists [], 2%Z, [45; 49; 124]. vm_compute. reflexivity. Qed.
-
-(* what holds instead: without the trigger the request never panics *)
-Theorem no_panic_read_request_partial {A} (matches : list A) (req_ps : Z) (tok : bytes) :
-  negative_offset_token tok = false -> read_request_mem matches req_ps tok <> Panic.
-Proof. intros Hn Hp. apply read_request_panic_iff in Hp. congruence. Qed.
-
-(* the storage-level function is the one the C14 model describes (and the C14 differential run
-   ties to the code) *)
-Theorem read_page_mem_is_page_offset {A} (l : list A) (size : N) (from : bytes) :
-  Paging.page_offset l size from = to_paging (read_page_mem l (Z.of_N size) from).
+(* the tokens that used to panic are answered with an error *)
+Theorem read_request_rejects_negative_offset {A} (matches : list A) (req_ps : Z) (tok : bytes) :
+  negative_offset_token tok = true -> read_request_mem matches req_ps tok = Ok None.
 Proof.
-  unfold Paging.page_offset, read_page_mem.
-  destruct (Paging.parse_from from) as [z|]; [|reflexivity].
-  unfold page_slice. fold (zlen l).
-  destruct (z <=? zlen l)%Z eqn:Ele; cbn [andb].
-  - destruct (Z.ltb z 0) eqn:Eneg.
-    + unfold slice_from. replace ((0 <=? z) && (z <=? zlen l))%Z with false by lia. reflexivity.
-    + rewrite slice_from_ok by lia. cbn [bind].
-      set (m := skipn (Z.to_nat z) l).
-      assert (Heq : (negb (Z.of_N size =? 0) && (Z.of_N size <? zlen m))%Z =
-                    (negb (size =? 0) && (N.to_nat size <? length m)%nat)) by (unfold zlen; lia).
-      rewrite Heq.
-      destruct (negb (size =? 0) && (N.to_nat size <? length m)%nat) eqn:Ec.
-      * rewrite slice_to_ok by (unfold zlen; lia). cbn [bind to_paging].
-        replace (Z.to_nat (Z.of_N size)) with (N.to_nat size) by lia. reflexivity.
-      * reflexivity.
-  - cbn [bind].
-    assert (Heq : (negb (Z.of_N size =? 0) && (Z.of_N size <? zlen l))%Z =
-                  (negb (size =? 0) && (N.to_nat size <? length l)%nat)) by (unfold zlen; lia).
-    rewrite Heq.
-    destruct (negb (size =? 0) && (N.to_nat size <? length l)%nat) eqn:Ec.
-    + rewrite slice_to_ok by (unfold zlen; lia). cbn [bind to_paging].
-      replace (Z.to_nat (Z.of_N size)) with (N.to_nat size) by lia. reflexivity.
-    + reflexivity.
+  unfold negative_offset_token, read_request_mem, read_page_mem.
+  destruct tok as [|c tok']; [discriminate|].
+  destruct (Paging.deserialize (c :: tok')) as [[u ty]|]; [|discriminate].
+  destruct (Paging.parse_from u) as [z|]; [|discriminate].
+  intro Hz. apply page_slice_negative_offset. lia.
 Qed.
 
 (* ================================================================== *)
@@ -260,23 +222,15 @@ Proof. revert i. induction l as [|x l IH]; intro i; simpl; [reflexivity|]. rewri
 Lemma number_length {B} p i (l : list B) : length (number p i l) = length l.
 Proof. revert i. induction l as [|x l IH]; intro i; simpl; [reflexivity|]. rewrite IH. reflexivity. Qed.
 
-(* (a) the instrumentation does not change the walk: erasing it gives C24's pb_walk *)
-Lemma frame_header_children f st acc fu :
-  pb_walk (S fu) (f :: st) acc = pb_walk fu (pb_children (snd f) ++ st) (acc ++ frame_header f).
+(* (a) what a frame emits = its header followed by what its children emit *)
+Lemma frame_bytes_unfold (f : frame) :
+  frame_bytes f = frame_header f ++ flat_map frame_bytes (pb_children (snd f)).
 Proof.
-  destruct f as [k v]. unfold frame_header. cbn [fst snd].
-  destruct v; cbn [pb_walk pb_children]; rewrite <- ?app_assoc; reflexivity.
-Qed.
-
-Theorem walk_i_erases_to_pb_walk fuel : forall stack acc vis maxh,
-  option_map wr_bytes (walk_i fuel stack acc vis maxh) = pb_walk fuel (erase stack) acc.
-Proof.
-  induction fuel as [|fu IH]; intros stack acc vis maxh.
-  - destruct stack as [|[p [k v]] st]; reflexivity.
-  - destruct stack as [|[p f] st]; [reflexivity|].
-    cbn [walk_i erase map snd]. rewrite IH.
-    fold (erase st). rewrite erase_app. unfold erase at 1. rewrite erase_number.
-    symmetry. apply frame_header_children.
+  destruct f as [k v]. unfold frame_bytes, frame_header. cbn [fst snd].
+  destruct v as [ |b|s|b| |l|fs]; cbn [pb_children flat_map]; rewrite ?app_nil_r; try reflexivity.
+  - rewrite enc_pb_list, flat_map_map, <- app_assoc. reflexivity.
+  - rewrite enc_pb_struct, flat_map_map, <- app_assoc. f_equal.
+    rewrite (Permutation_length (sort_fields_perm fs)). reflexivity.
 Qed.
 
 (* (b) sizes *)
@@ -377,14 +331,9 @@ Proof.
         as [m [Hw [Hlo Hhi]]].
       exists m. split; [|split].
       * cbn [walk_i]. fold st'. rewrite Hw. f_equal. f_equal.
-        -- (* bytes: header ++ children ++ rest = frame_bytes f ++ rest, by C24's pb_walk_correct *)
-           assert (Hle : (frames_size (f :: erase st) <= S fu)%nat).
-           { rewrite frames_size_cons. lia. }
-           pose proof (pb_walk_correct (S fu) (f :: erase st) acc Hle) as Hc.
-           rewrite frame_header_children in Hc.
-           rewrite Her in Hsz'.
-           rewrite (pb_walk_correct fu (pb_children (snd f) ++ erase st) (acc ++ frame_header f) Hsz') in Hc.
-           injection Hc as Hc. rewrite Her. cbn [erase map snd]. fold (erase st). exact Hc.
+        -- (* bytes: header ++ children ++ rest = frame_bytes f ++ rest *)
+           rewrite Her. cbn [erase map snd flat_map]. fold (erase st).
+           rewrite flat_map_app, (frame_bytes_unfold f), <- !app_assoc. reflexivity.
         -- (* visits *)
            cbn [forest_paths flat_map]. fold (forest_paths st).
            rewrite frame_paths_unfold. unfold st'. rewrite forest_paths_app.
@@ -495,6 +444,11 @@ Proof.
   rewrite Hw. intro H. injection H as <-. cbn [wr_bytes erase map snd flat_map].
   unfold frame_bytes. cbn [fst snd]. rewrite app_nil_r. reflexivity.
 Qed.
+
+(* hence the instrumented walk emits what C24's model of the same loop (KeyEnc.pb_walk, tied to the
+   code byte for byte by the C24 run) emits *)
+Theorem walk_agrees_with_c24 v r : pb_write_i v = Ok r -> pb_write_outcome v = Bytes (wr_bytes r).
+Proof. intro H. rewrite (walk_eq_recursive v r H). apply pb_write_total. Qed.
 
 (* the nodes are popped in pre-order, each exactly once *)
 Theorem walk_visits_each_node_once v r : pb_write_i v = Ok r ->
